@@ -596,6 +596,15 @@ func genFiniteCapacities(c *Ctx) {
 			}
 			c.Count("directed:capacity-sweep")
 			c.Emit(val.L(val.Int(n), val.Bool(auto), val.List(ops)))
+			// the same puts, then the ID of every age presented: the oldest buffered one, the one evicted last, IDs evicted
+			// 2, 3, n/2, n-1, n, n+1 puts ago and the very first (what a buffer that holds more than N would still find)
+			for _, k := range []int{n - 2, n - 1, n, n + 1, n + 2, n + n/2, 2*n - 1, 2 * n, 2*n + 1, 2*n + 2} {
+				if k < len(g.issued) {
+					ops = append(ops, val.L(val.N(1), g.recent(k), val.Strs([]string{""}), val.L()))
+				}
+			}
+			c.Count("directed:capacity-sweep-every-age")
+			c.Emit(val.L(val.Int(n), val.Bool(auto), val.List(ops)))
 		}
 	}
 }
